@@ -39,13 +39,13 @@ theorem init_inv (code input : List Nat) (gasLimit : Nat) (isStatic : Bool) (spe
     (env : Env) (mem : Memory.SharedMemory)
     (hcode : Spec.Jump.Bytes code) (hcl : code.length ≤ Memory.ISIZE_MAX) (hil : input.length ≤ Memory.ISIZE_MAX)
     (hgas : gasLimit < U64) (henv : EnvOk spec env) (hmem : FreshMem mem) :
-    Inv (IState.init code input gasLimit isStatic spec target caller callValue env mem)
+    InvC (Jump.pad code) code.length (IState.init code input gasLimit isStatic spec target caller callValue env mem)
       ∧ measure (IState.init code input gasLimit isStatic spec target caller callValue env mem) = gasLimit := by
   have hmeas : measure (IState.init code input gasLimit isStatic spec target caller callValue env mem)
       = gasLimit := by
     show gasLimit + Memory.currentExpansionCost mem = gasLimit
     rw [mcost_fresh hmem]; rfl
-  refine ⟨?_, hmeas⟩
+  refine ⟨⟨?_, rfl, rfl⟩, hmeas⟩
   exact
     { codeLen := Proofs.Jump.pad_length code
       pad := fun i h1 h2 => pad_getElem code i h1 h2
@@ -69,112 +69,6 @@ theorem init_inv (code input : List Nat) (gasLimit : Nat) (isStatic : Bool) (spe
       inLen := hil
       meas := by rw [hmeas]; omega
       safe := Or.inr rfl }
-
-/-! ## the loop, for every fuel -/
-
-/-- what `run` may return: a defined result within the gas of the frame; never a fault; "out of fuel" only when
-the fuel was at most the measure -/
-def RunSafe (fuel : Nat) (s : IState) : RunResult → Prop
-  | .done _ _ s' => measure s' ≤ measure s
-  | .fault _ => False
-  | .outOfFuel => fuel ≤ measure s
-
-theorem RunSafe.mono {n : Nat} {s s' : IState} {r : RunResult} (h : RunSafe n s' r)
-    (hm : measure s' + 1 ≤ measure s) : RunSafe (n + 1) s r := by
-  cases r with
-  | done r o s'' => show measure s'' ≤ measure s; have : measure s'' ≤ measure s' := h; omega
-  | fault f => exact h
-  | outOfFuel => show n + 1 ≤ measure s; have : n ≤ measure s' := h; omega
-
-theorem continueWith_safe {η : Type} (o : Oracle η) (ho : OracleOk o) (n : Nat) (s : IState) (d : Done) (h : η)
-    (hd : StepOk s d) (hs : measure s ≤ U64 - 1)
-    (ih : ∀ (s' : IState) (h' : η), Inv s' → RunSafe n s' (run o n s' h').1) :
-    RunSafe (n + 1) s (continueWith o (run o n) d h).1 := by
-  cases hd with
-  | next hi hm _ => exact (ih _ h hi).mono hm
-  | @action a s' hi hm hr _ =>
-    have hc := ho.child h a
-    have hins := insertOutcome_sat (B := measure s - 1) a (o.child h a).1 hi (by omega) (by omega) hr hc
-    show RunSafe (n + 1) s (match insertOutcome a (o.child h a).1 s' with
-      | .ok _ s'' => run o n s'' (o.child h a).2
-      | .halt r out s'' => (RunResult.done r out s'', (o.child h a).2)
-      | .fault f => (RunResult.fault f, (o.child h a).2)).1
-    cases hx : insertOutcome a (o.child h a).1 s' with
-    | ok u s'' =>
-      rw [hx] at hins
-      have hmid := sat_ok_inv hins
-      exact (ih s'' (o.child h a).2 hmid.1).mono (by have := hmid.2.1; omega)
-    | halt r out s'' =>
-      rw [hx] at hins
-      have := sat_halt_inv hins
-      show measure s'' ≤ measure s
-      omega
-    | fault f => rw [hx] at hins; exact (sat_fault_inv hins).elim
-  | halt hm => exact hm
-
-theorem run_safe {η : Type} (o : Oracle η) (ho : OracleOk o) :
-    ∀ (fuel : Nat) (s : IState) (h : η), Inv s → RunSafe fuel s (run o fuel s h).1 := by
-  intro fuel
-  induction fuel with
-  | zero => intro s h _; exact Nat.zero_le _
-  | succ n ih =>
-    intro s h hi
-    have hg := step_good hi
-    show RunSafe (n + 1) s (match step s with
-      | .pure d => continueWith o (run o n) d h
-      | .host op k => continueWith o (run o n) (k (o.host h op).1) (o.host h op).2).1
-    generalize step s = st at hg
-    cases hg with
-    | pure hd => exact continueWith_safe o ho n s _ h hd hi.meas ih
-    | host hk => exact continueWith_safe o ho n s _ _ (hk _ (ho.host h _)) hi.meas ih
-
-/-! ## reachable states -/
-
-/-- the instruction resolved against the oracle -/
-def resolve {η : Type} (o : Oracle η) (out : Outcome) (h : η) : Done × η :=
-  match out with
-  | .pure d => (d, h)
-  | .host op k => (k (o.host h op).1, (o.host h op).2)
-
-/-- the states `run` passes through between instructions -/
-inductive Reach {η : Type} (o : Oracle η) (s0 : IState) (h0 : η) : IState → η → Prop
-  | start : Reach o s0 h0 s0 h0
-  | next {s h s' h'} : Reach o s0 h0 s h → resolve o (step s) h = (.next s', h') → Reach o s0 h0 s' h'
-  | reenter {s h a s' h' s''} : Reach o s0 h0 s h → resolve o (step s) h = (.action a s', h') →
-      insertOutcome a (o.child h' a).1 s' = .ok () s'' → Reach o s0 h0 s'' (o.child h' a).2
-
-theorem resolve_ok {η : Type} (o : Oracle η) (ho : OracleOk o) {s : IState} (hi : Inv s) (h : η) :
-    StepOk s (resolve o (step s) h).1 := by
-  have hg := step_good hi
-  unfold resolve
-  generalize step s = st at hg
-  cases hg with
-  | pure hd => exact hd
-  | host hk => exact hk _ (ho.host h _)
-
-/-- the invariant (instruction pointer inside the code, stack within 1024, memory well-formed, …) holds in every
-reachable state, and the measure never exceeds its initial value -/
-theorem reach_inv {η : Type} (o : Oracle η) (ho : OracleOk o) {s0 : IState} {h0 : η} (hi0 : Inv s0)
-    {s : IState} {h : η} (hr : Reach o s0 h0 s h) :
-    Inv s ∧ measure s ≤ measure s0 ∧ s.code = s0.code ∧ s.origLen = s0.origLen := by
-  induction hr with
-  | start => exact ⟨hi0, Nat.le_refl _, rfl, rfl⟩
-  | @next s h s' h' _ hres ih =>
-    have hok := resolve_ok o ho ih.1 h
-    rw [hres] at hok
-    cases hok with
-    | next hi hm hc => exact ⟨hi, by have := ih.2.1; omega, hc.1.trans ih.2.2.1, hc.2.trans ih.2.2.2⟩
-  | @reenter s h a s' h' s'' _ hres hins ih =>
-    have hok := resolve_ok o ho ih.1 h
-    rw [hres] at hok
-    cases hok with
-    | action hi hm hr hc =>
-      have hsat := insertOutcome_sat (B := measure s - 1) a (o.child h' a).1 hi (by omega)
-        (by have := ih.1.meas; omega) hr (ho.child h' a)
-      rw [hins] at hsat
-      have hmid := sat_ok_inv hsat
-      exact ⟨hmid.1, by have := hmid.2.1; have := ih.2.1; omega,
-        (hmid.2.2.1.trans hc.1).trans ih.2.2.1, (hmid.2.2.2.trans hc.2).trans ih.2.2.2⟩
 
 /-! ## per-step corollaries -/
 
@@ -204,10 +98,7 @@ theorem step_next_gas {η : Type} (o : Oracle η) (ho : OracleOk o) {s s' : ISta
   have hpc := hi.pc
   rw [step_eq hpc] at hres
   by_cases hin : s.pc < s.origLen
-  · have hs : Start { s with pc := s.pc + 1 } :=
-      { codeLen := hi.codeLen, jt := hi.jt, legacy := hi.legacy, notInit := hi.notInit, envOk := hi.envOk,
-        origLe := hi.origLe, pc := hin, stack := hi.stack, memWF := hi.memWF, memCk := hi.memCk,
-        rdLen := hi.rdLen, inLen := hi.inLen, meas := hi.meas, safe := hi.safe }
+  · have hs := hi.start hin
     have hg := execInstr_good hs (decode s.code[s.pc])
     generalize execInstr (decode s.code[s.pc]) { s with pc := s.pc + 1 } = out at hg hres
     unfold resolve at hres
